@@ -254,6 +254,20 @@ def run(ctx):
         if not ok:
             ctx.oracle_fail("const-normal", "const_normal", args, obs, req, text)
 
+    # whole generator loops (`__call__(nsamples)`, also on a generator object that has been called before) against
+    # MudModel.Generators.{normalGen, constGen, boltzmannGen}: which draws are yielded, with which seed, in which order
+    from .. import genloops
+    glines, gkeep = genloops.build(rng, mudslide, fbs, fb, ctx.budget(90, 3000))
+    gouts = ctx.model.run(glines)
+    for gargs, gn, gcnt, gprob in genloops.compare(gkeep, gouts, unfb, allclose):
+        skipped = gcnt < gargs["k"]
+        ctx.case(("genloop", gargs["kind"], gn, skipped, gargs["prior_spawned"] > 0)
+                 if (skipped or gargs["prior_spawned"] > 0 or gn >= 2) else None,
+                 {"op": "genloop", "kind": gargs["kind"], "requested": gargs["k"], "yielded_by_model": gcnt})
+        ctx.count("genloop:%s%s" % (gargs["kind"], ":with_skips" if skipped else ""))
+        if gprob:
+            ctx.corr_mismatch("genloop:" + gargs["kind"], gargs, gprob)
+
     # SeedSequence.spawn bookkeeping
     lines, keep = [], []
     for i in range(ctx.budget(60, 2000)):
